@@ -55,3 +55,5 @@ def handler (ops : List Toks) : List String :=
   outs.reverse
 
 end GS.Driver.Alloc
+
+def main : IO Unit := GS.Proto.runModel GS.Driver.Alloc.handler
